@@ -36,6 +36,13 @@ CHECKS = {
         note="As C06. A difference from the operational model that satisfies every declarative clause is counted as a deviation, not a violation.",
         ref="§3 C07",
     ),
+    "C08": dict(
+        level="model_checking",
+        technique="TLA+ spec IO.tla (file system as state; multi-step writers Open/WriteDataset/Raise/Close; sorted-key reader through the class registry) model-checked by TLC over every object of the bounded structure space and every history of <=2 write calls; spec->code replay of every history with to_file/from_file, comparing the real HDF5 file with the spec's file state and the read-back object bit for bit",
+        text="TLC enumerates all Emulsions / EmulsionTimeCourses / DropletTracks / DropletTrackLists with <=2-3 members of <=2-3 droplets over alphabets of (class, layout) pairs covering all five droplet classes, dimensions 1-3, 1-3 modes, sibling classes with one layout, broadcastable layouts, empty members in every position and two time patterns, followed by a second write of a short/empty object to the same or another path, and checks RoundTrip, NoSilentChange, OneSetPerMember, Termination; the variant with the pre-repair track writer (CheckTrackClass=FALSE) is refuted by TLC. Every history (quick 1.5e4) is replayed with real objects whose parameters come from a hostile pool (signed zeros, subnormals, 1e300, 2^53+1, NaN/None widths, int/float/negative/non-uniform/large times): after each write the HDF5 file is opened and compared with the spec's file (dataset count, keys, droplet_class, time attribute, row count, row layout), read back and compared with == and by class, dtype and data bytes; at the end every path must still hold its last object.",
+        note="Trusted: TLC, h5py for inspecting files. Float payload fidelity is observed at the pool values only. Key ordering beyond 10^6 members is a stated bound, not replayed. Found and repaired F8 (track of mixed classes / broadcastable layouts written and read back unequal).",
+        ref="§3 C08",
+    ),
     "C10": dict(
         level="model_checking",
         technique="TLA+ spec Overlap.tla (PickMin/Pop loop over exact surface-distance order) model-checked by TLC on integer lattices + spec->code replay by object identity + code->spec trace validation (TraceOverlap.tla)",
